@@ -209,7 +209,7 @@ def canon(x):
     return json.dumps(x, sort_keys=True, separators=(",", ":"))
 
 
-def edge_cover_walks(edges, init_key, max_len=60, limit_steps=None, seed=0):
+def edge_cover_walks(edges, init_key, max_len=60, limit_steps=None, seed=0, sample=None):
     """edges: list of (prekey, act, postkey, expect).  Returns walks (lists of edge indices) from
     init_key covering every edge reachable, greedily: follow unvisited edges, use a BFS shortest
     path to the nearest state with an unvisited edge, restart when the walk gets long."""
@@ -222,6 +222,11 @@ def edge_cover_walks(edges, init_key, max_len=60, limit_steps=None, seed=0):
     for k in out:
         rnd.shuffle(out[k])
     unv = {k: list(v) for k, v in out.items()}
+    if sample is not None and sample < len(edges):
+        # quick tiers: a seed-dependent subset of the transitions is the target; every edge stays
+        # available for getting there
+        chosen = set(rnd.sample(range(len(edges)), sample))
+        unv = {k: [i for i in v if i in chosen] for k, v in unv.items()}
     remaining = sum(len(v) for v in unv.values())
     # drop unreachable
     reach = set([init_key])
@@ -240,6 +245,15 @@ def edge_cover_walks(edges, init_key, max_len=60, limit_steps=None, seed=0):
     walks = []
     total = 0
 
+    succ = {}
+    for k, idxs in out.items():
+        d = {}
+        for i in idxs:
+            nk = edges[i][2]
+            if nk != k and nk not in d:
+                d[nk] = i
+        succ[k] = list(d.items())
+
     def path_to_unvisited(src):
         prev = {src: None}
         dq = deque([src])
@@ -253,8 +267,7 @@ def edge_cover_walks(edges, init_key, max_len=60, limit_steps=None, seed=0):
                     k = pk
                 path.reverse()
                 return path
-            for i in out.get(k, ()):
-                nk = edges[i][2]
+            for nk, i in succ.get(k, ()):
                 if nk not in prev:
                     prev[nk] = (k, i)
                     dq.append(nk)
@@ -395,28 +408,32 @@ def domain_dump(chk):
     return path, res.json[0]
 
 
-def generate_edges(chk, module, cfg, timeout=1800, args=(), heap="12g"):
+def generate_edges(chk, module, cfg, timeout=1800, args=(), heap="12g", workers=16):
     """Role A + B in one run: TLC explores the bounded configuration with its invariants and
-    prints every generated transition (ACTION_CONSTRAINT Emit).  workers=1: deterministic order."""
+    prints every generated transition (ACTION_CONSTRAINT Emit) and the initial state(s).
+    The edges are sorted, so the result does not depend on worker scheduling."""
     edges = []
-    init = {}
+    inits = []
 
     def sink(o):
         if "pre" in o:
-            edges.append((canon(o["pre"]), o["act"], canon(o["post"]), o["post"]))
-            if not init:
-                init["k"] = None
+            edges.append((canon(o["pre"]), o["act"], canon(o["post"]), canon(o["act"])))
         elif "init" in o:
-            init["state"] = o["init"]
+            inits.append(canon(o["init"]))
 
-    res = tlc(chk.work, module, cfg, workers=1, timeout=timeout, args=args, heap=heap, json_sink=sink)
+    res = tlc(chk.work, module, cfg, workers=workers, timeout=timeout, args=args, heap=heap, json_sink=sink)
     chk.add_model_run(os.path.basename(cfg), res)
     if res.violated:
         chk.notes.append("MODEL-ONLY: design model %s violates %s (see DESIGN.md section 2)" % (cfg, res.violated))
         print("MODEL-ONLY: %s violates %s in the design model" % (cfg, res.violated))
     elif res.error:
         raise Inconclusive("TLC %s: %s\n%s" % (cfg, res.error, res.out[-1500:]))
-    return edges, res
+    if not edges or not inits:
+        raise Inconclusive("no edges / initial state from %s: %s" % (cfg, res.out[-800:]))
+    edges.sort(key=lambda e: (e[0], e[3], e[2]))
+    edges = [e[:3] for e in edges]
+    log("  %s: %d distinct states, %d transitions emitted in %.1fs" % (cfg, res.distinct, len(edges), res.wall))
+    return edges, sorted(set(inits)), res
 
 
 def simulate_walks(chk, module, cfg, num, depth, seed, timeout=1800):
@@ -428,7 +445,7 @@ def simulate_walks(chk, module, cfg, num, depth, seed, timeout=1800):
     def sink(o):
         if "pre" not in o:
             return
-        if o.get("first"):
+        if o.get("n", 1) == 0:
             if cur:
                 walks.append(list(cur))
             cur.clear()
@@ -448,6 +465,63 @@ def write_scenarios(path, walks_as_steps, init, prefix="w"):
     with open(path, "w") as fh:
         for n, steps in enumerate(walks_as_steps):
             fh.write(json.dumps({"id": "%s%d" % (prefix, n), "init": init, "steps": steps}) + "\n")
+
+
+def run_judge_parallel(chk, module, cfg, obs_path, obs_name="obs.ndjson", chunks=14, timeout=1800, walk_key="w"):
+    """Role C on several TLC processes: the observation file is cut at walk boundaries."""
+    import concurrent.futures
+    lines = open(obs_path).read().splitlines()
+    if not lines:
+        raise Inconclusive("no observations")
+    if len(lines) < 4000:
+        chunks = 1
+    per = (len(lines) + chunks - 1) // chunks
+    parts, cur, lastw = [], [], None
+    for l in lines:
+        m = re.search(r'"%s":"([^"]*)"' % walk_key, l)
+        w = m.group(1) if m else None
+        if len(cur) >= per and w != lastw:
+            parts.append(cur)
+            cur = []
+        cur.append(l)
+        lastw = w
+    if cur:
+        parts.append(cur)
+    fails = []
+
+    def one(k):
+        d = os.path.join(chk.work, "judge_%s_%d" % (module, k))
+        os.makedirs(d, exist_ok=True)
+        pth = os.path.join(d, obs_name)
+        with open(pth, "w") as fh:
+            fh.write("\n".join(parts[k]) + "\n")
+        got, done = [], {}
+
+        def sink(o):
+            if "fails" in o:
+                got.append(o)
+            elif "done" in o:
+                done["n"] = o["done"]
+
+        res = tlc(d, module, cfg, workers=1, timeout=timeout, extra_files=[pth], json_sink=sink, heap="3g")
+        if res.error or res.violated:
+            raise Inconclusive("judge %s: %s %s\n%s" % (module, res.error, res.violated, res.out[-2500:]))
+        if done.get("n") != len(parts[k]):
+            raise Inconclusive("judge %s consumed %s of %d observation lines\n%s"
+                               % (module, done.get("n"), len(parts[k]), res.out[-1500:]))
+        return got
+
+    t0 = time.time()
+    with concurrent.futures.ThreadPoolExecutor(max_workers=len(parts)) as ex:
+        offs = 0
+        futs = [ex.submit(one, k) for k in range(len(parts))]
+        for k, f in enumerate(futs):
+            for g in f.result():
+                g["line"] += offs
+                fails.append(g)
+            offs += len(parts[k])
+    log("  judge %s: %d lines in %d chunk(s), %.1fs, %d failing lines" % (module, len(lines), len(parts), time.time() - t0, len(fails)))
+    return fails, len(lines)
 
 
 def run_judge(chk, module, cfg, obs_path, timeout=1800, deque=False):
